@@ -131,12 +131,14 @@ let parse_chunks (s : string) : chunk list =
 
 type st = { mutable backend : backend; mutable s : Obj.t; mutable cfg : config; mutable is_sqlite : bool;
             mutable trace : bool; mutable allow : id list option; mutable plan : (nat * fault) list;
-            mutable conc_n : int; mutable conc_reqs : (env * hresp hprog) list }
+            mutable conc_n : int; mutable conc_reqs : (env * hresp hprog) list;
+            mutable abs : astore (* the abstract store, driven by `txn` lines only: is the sequence inside the storage contract? *) }
 
 let () =
   let bk = if Array.length Sys.argv > 1 then Sys.argv.(1) else "inmem" in
-  let st = { backend = inMemB; s = Obj.repr im_empty; cfg = default_config; is_sqlite = false; trace = false; allow = None; plan = []; conc_n = 0; conc_reqs = [] } in
+  let st = { backend = inMemB; s = Obj.repr im_empty; cfg = default_config; is_sqlite = false; trace = false; allow = None; plan = []; conc_n = 0; conc_reqs = []; abs = a_empty } in
   let reset which =
+    st.abs <- a_empty;
     if which = "sqlite" then (st.backend <- sqliteB; st.s <- Obj.repr sq_empty; st.is_sqlite <- true)
     else (st.backend <- inMemB; st.s <- Obj.repr im_empty; st.is_sqlite <- false) in
   reset bk;
@@ -175,6 +177,36 @@ let () =
         | ["setcounter"; c; k] -> do_op (OSetCounter (n_of_string c, n_of_string k)) noenv
         | ["reopen"] -> do_op OReopen noenv
         | ["dump"; c; ids] -> do_op (ODump (n_of_string c, ids_of_string ids)) noenv
+        | "txn" :: c :: calls ->
+          (* txn CLIENT call...   (storage-trait rig, L0.run_txn) *)
+          let parse (t : string) : call =
+            let arg = match String.index_opt t '=' with Some i -> String.sub t (i + 1) (String.length t - i - 1) | None -> "" in
+            let parts = String.split_on_char '/' arg in
+            match (if String.contains t '=' then String.sub t 0 (String.index t '=') else t), parts with
+            | "gc", _ -> CGetClient
+            | "nc", [l] -> CNewClient (n_of_string l)
+            | "ss", [v; ts; since; d] -> CSetSnapshot ({ sm_version = n_of_string v; sm_time = z_of_string ts; sm_since = n_of_string since }, payload_of_string d)
+            | "gsd", [v] -> CGetSnapshotData (n_of_string v)
+            | "gvp", [p] -> CGetByParent (n_of_string p)
+            | "gv", [v] -> CGetVersion (n_of_string v)
+            | "av", [v; p; d] -> CAddVersion (n_of_string v, n_of_string p, payload_of_string d)
+            | "co", _ -> CCommit
+            | _ -> failwith ("bad call " ^ t) in
+          let cs = List.map parse calls in
+          let (rs, s') = l0_txn st.backend st.s (n_of_string c) cs in
+          st.s <- s';
+          let (_, a') = l0_txn aStoreB (Obj.magic st.abs) (n_of_string c) cs in
+          st.abs <- Obj.magic a';
+          let show (r : cres) : string =
+            match r with
+            | KClient o -> "c:" ^ (match o with None -> "none" | Some cl ->
+                Printf.sprintf "%s/%s" (string_of_n cl.c_latest)
+                  (match cl.c_snap with None -> "-" | Some m -> Printf.sprintf "%s@%s+%s" (string_of_n m.sm_version) (string_of_z m.sm_time) (string_of_n m.sm_since)))
+            | KUnit -> "ok"
+            | KData o -> "d:" ^ (match o with None -> "none" | Some d -> string_of_payload d)
+            | KVersion o -> "v:" ^ string_of_oversion o
+            | KErr -> "err" in
+          Printf.printf "%s contract=%s\n" (String.concat " " (List.map show rs)) (if contract_ok st.abs then "ok" else "broken")
         | "mark" :: _ -> print_endline "mark"
         | "boot" :: rest ->
           (* boot listen=SRC:N dir=SRC allow=SRC:ids versions=SRC:K days=SRC:K *)
